@@ -85,13 +85,15 @@ impl Visitor for AlmostSwappedVisitor {
                                     names: last_swap.names.to_owned(),
                                     range: (last_swap.range.0, expr_end),
                                 });
+
+                                continue;
                             }
-                        } else {
-                            last_swap = Some(AlmostSwap {
-                                names: (var_text, expr_text),
-                                range: range(stmt),
-                            });
                         }
+
+                        last_swap = Some(AlmostSwap {
+                            names: (var_text, expr_text),
+                            range: range(stmt),
+                        });
 
                         continue;
                     }
